@@ -136,6 +136,23 @@ def examine(traj, X, U, m, ctx, what, order):
     return ok, out
 
 
+def frames_check(traj, X, ctx, what, rng):
+    """Positions reported through single-frame access: traj[i], get_structure(i), iteration."""
+    T = len(X)
+    how = str(rng.choice(['index', 'get_structure', 'iter']))
+    if how == 'iter':
+        got = [(i, s) for i, s in enumerate(traj)]
+        ctx.check(len(got) == T, f'{what}: iterating the trajectory gave {len(got)} frames, it has {T}')
+    else:
+        idx = sorted({int(i) for i in rng.integers(T, size=min(T, 6))} | {0, T - 1})
+        got = [(i, traj[i] if how == 'index' else traj.get_structure(i)) for i in idx]
+    for i, s in got[:T]:
+        f = np.asarray(s.frac_coords)
+        ok = ctx.check(bool(f.min() >= 0 and f.max() < 1), f'{what}: frame {i} via {how} reports a coordinate outside [0,1): min={f.min()!r} max={f.max()!r}', {'input': X})
+        ok and ctx.check(float(geom.circ_diff(f, X[i]).max()) <= 1e-12, f'{what}: frame {i} via {how} differs from the input by a non-integer', {'input': X, 'frame': f})
+    ctx.count(f'single_frame_access:{how}', len(got))
+
+
 def run_unit(unit, rng, ctx):
     kind, rot, m = geom.random_lattice(rng)
     T = int(rng.integers(1, 61))
@@ -157,6 +174,13 @@ def run_unit(unit, rng, ctx):
     # integer-shifted copy (always handed over as positions: the shift is about input coordinates)
     t2 = gen.make_trajectory(m, gen.species_objects(names), U2.copy())
     _, o2 = examine(t2, U2, U, m, ctx, what + ' [shifted]', order2)
+    # single-frame entry points (traj[i], get_structure(i), iteration) report positions too; asked first on
+    # a never-queried object in half of the cases, after the other accessors otherwise
+    if unit['i'] % 2 == 0:
+        t3 = build(rng, m, U, mode, names)
+        frames_check(t3, X1, ctx, what + ' [fresh object]', rng)
+    else:
+        frames_check(t1, X1, ctx, what + ' [after other accessors]', rng)
     for key in ('cumulative', 'distances'):
         if key in o1 and key in o2:
             scale = max(1.0, float(np.abs(o1[key]).max()))
